@@ -164,6 +164,10 @@ def run(ctx):
         "noodles_bgzf::io::multithreaded_writer::builder::Builder.worker_count":
             "set_worker_count is #[deprecated] and documented as ignored (the rayon pool is configured globally)"})
 
+    ctx.rule("C20.R8", "A7 dispatch agreement: every arm of a generic wrapper's trait method forwards to the SAME-named method of that trait on "
+                       "the wrapped format type (a copy/paste slip in one arm answers one accessor with another field, for one format only)")
+    forwarding_rule(ctx, "C20.R8", 30)
+
     ctx.rule("C20.R7", "detection window: the generic readers look at ONE fill_buf window (known finding F6, triaged at BufReader's default 8 KiB): "
                        "no builder constructs its detection reader with a smaller constant capacity")
     n7 = small = 0
@@ -214,3 +218,62 @@ def _table(fb, key):
             for f in fmts:
                 out[(f, comp)] = val
     return out
+
+
+def _split_impl(k):
+    """'<X as T>::m' -> (X, T, m) (None for anything else)"""
+    if not k or not k.startswith("<"):
+        return None
+    depth = 0
+    for i, ch in enumerate(k):
+        if ch == "<":
+            depth += 1
+        elif ch == ">":
+            depth -= 1
+            if depth == 0:
+                inner, rest = k[1:i], k[i + 1:]
+                if not rest.startswith("::") or "::" in rest[2:]:
+                    return None
+                d2, pos = 0, None
+                for j in range(len(inner)):
+                    if inner[j] == "<":
+                        d2 += 1
+                    elif inner[j] == ">":
+                        d2 -= 1
+                    elif d2 == 0 and inner.startswith(" as ", j):
+                        pos = j
+                if pos is None:
+                    return None
+                return inner[:pos], inner[pos + 4:], rest[2:]
+    return None
+
+
+def forwarding_rule(ctx, rule, floor):
+    """The generic wrappers of noodles-util implement a format-independent trait by dispatching on the format: every arm of
+    `<Wrapper as T>::m` that calls a method of the SAME trait T on another type calls the method of the same name m."""
+    fb = ctx.fb
+    n = 0
+    for k, f in sorted(fb.fns.items()):
+        if not f.blocks or not k.startswith("<noodles_util"):
+            continue
+        me = _split_impl(k)
+        if not me:
+            continue
+        arms = []
+        for b, c in f.calls():
+            o = _split_impl(c.get("f") or "")
+            if o and o[1] == me[1] and o[0] != me[0]:
+                arms.append((b, o))
+        if not arms:
+            continue
+        n += 1
+        ctx.saw_fn(f)
+        bad = [(b, o) for b, o in arms if o[2] != me[2]]
+        if bad:
+            b, o = bad[0]
+            ctx.violation(rule, "%s/forwards-to-other-method/%s" % (rule, k),
+                          "%s forwards to %s::%s in the arm for %s: the generic record / reader / writer answers this accessor with another "
+                          "field of the wrapped value for that format only" % (k, o[1].split("::")[-1], o[2], o[0]), f.loc(b))
+        else:
+            ctx.ok(rule, k, "%d arm(s) forward to the same-named method" % len(arms), f.loc())
+    ctx.floor(rule, "forwarding impls in noodles_util", n, floor)
